@@ -32,6 +32,8 @@ DEFAULTS = {
     "d15": ("(NULL)", "NULL"), "d16": ("':)'", "':)'"), "d17": ("'a)b'", "'a)b'"), "d18": ("'n/a)'", "'n/a)'"), "d19": ("','", "','"),
     "d20": ("-1.5", "-1.5"), "d21": ("+0.25", "+0.25"), "d22": ("-0.0", "-0.0"), "d23": ("0.00", "0.00"),
     # decimal literals outside the lexer's number pattern (no digit before / after the point, an exponent): finding exotic_decimal
+    # one-letter literals that are also literal PREFIXES in some dialects (N'..', E'..', X'..', B'..'): plain strings here
+    "d27": ("'N'", "'N'"), "d28": ("'Y/N'", "'Y/N'"), "d29": ("'E'", "'E'"), "d30": ("'X'", "'X'"), "d31": ("'b'", "'b'"),
     "d24": (".5", ".5"), "d25": ("1.", "1."), "d26": ("1.5e3", "1.5e3"),
 }
 DEFAULT_TAGS = {"d24": "exotic_decimal", "d25": "exotic_decimal", "d26": "exotic_decimal"}
@@ -73,25 +75,28 @@ OPENER_WORDS = ("exit prompt rem remark spool whenever begin end commit rollback
 # column names here - every one verified on the pinned tree as column name, in key / unique / foreign-key lists and in checks
 WHOLE_WORDS = ("asc desc nulls first last action cascade restrict deferred immediate enable disable validate novalidate nonclustered value name "
                "date time timestamp user level size text year zone always identity virtual hash btree unsigned zerofill binary character charset "
-               "names temporary external transient to of any all some key order type start cache row format comment update column").split()
+               "names temporary external transient to of any all some").split()      # (no grammar keywords: inside CHECK expressions those are C06's business)
 
 
 def name_map(seed, salt=0):
     """abstract column names -> concrete identifiers.  seed 0 keeps a, b, c; other seeds draw keyword-shaped but legal
     identifiers (a keyword with a suffix / prefix, any case) so that prefix / substring matching of keywords shows."""
-    if seed % 7 == 5:   # statement-opener words as column names
+    if seed % 8 == 5:   # statement-opener words as column names
         rnd = random.Random(f"openers{seed}:{salt}")     # (salt: another draw per behaviour, so that one run meets every word)
         ws = rnd.sample(OPENER_WORDS, len(ABSTRACT_COLS))
         return {c: (w if rnd.random() < 0.6 else (w.upper() if rnd.random() < 0.5 else w.capitalize())) for c, w in zip(ABSTRACT_COLS, ws)}
-    if seed % 7 == 6:   # whole words: sort directions, referential actions, modifiers ... as column names (any letter case)
+    if seed % 8 == 6:   # whole words: sort directions, referential actions, modifiers ... as column names (any letter case)
         rnd = random.Random(f"whole{seed}:{salt}")
         ws = rnd.sample(WHOLE_WORDS, len(ABSTRACT_COLS))
-        return {c: (w if rnd.random() < 0.6 else (w.upper() if rnd.random() < 0.5 else w.capitalize())) for c, w in zip(ABSTRACT_COLS, ws)}
-    if seed % 7 == 0:
+        # (asc / desc stay in lower case: written ASC / DESC inside a key list they ARE the sort direction words - see OBSERVATIONS.md)
+        return {c: (w if rnd.random() < 0.6 or w in ("asc", "desc") else (w.upper() if rnd.random() < 0.5 else w.capitalize())) for c, w in zip(ABSTRACT_COLS, ws)}
+    if seed % 8 == 7:   # legal identifier characters beyond letters: `#`, `$`, a leading underscore, digits inside
+        return {"a": "serial#", "b": "file$no", "c": "_lead", "d": "blk#2", "e": "x2y#"}
+    if seed % 8 == 0:
         return {c: c for c in ABSTRACT_COLS}
-    if seed % 7 == 1:   # names that merely START with a word the lexer matches by regular expression / prefix
+    if seed % 8 == 1:   # names that merely START with a word the lexer matches by regular expression / prefix
         return {"a": "collateral_id", "b": "auto_incremented", "c": "ARRAY_len", "d": "autoincrement_no", "e": "Collated_at"}
-    if seed % 7 == 2:   # legal sibling names that differ only by quoting / letter case
+    if seed % 8 == 2:   # legal sibling names that differ only by quoting / letter case
         return {"a": '"Col"', "b": "col", "c": "COL", "d": "`col`", "e": "[Col]"}
     rnd = random.Random(f"names{seed}:{salt}")
     out, used = {}, set()
@@ -178,6 +183,8 @@ def item_text(it, rnd, nm=None):
     cn = f"CONSTRAINT {it['cn']} " if it["cn"] else ""
     if k in ("pk", "cpk"):
         form = rnd.randrange(4)
+        if form >= 2 and any(nm[c].lower() in ("asc", "desc") for c in it["cs"]):
+            form -= 2        # a column CALLED asc / desc followed by a sort direction word is ambiguous: no direction words then
         if form == 1:
             return f"{cn}PRIMARY KEY CLUSTERED ({cs})"
         if form == 2:   # some, not all, key columns carry an explicit sort direction
